@@ -44,6 +44,12 @@ func vfNetHistory(t *testing.T, rng *rand.Rand, mode int, forceBig bool) (lit st
 		if reconn {
 			mode, forceBig = 2, true
 		}
+		// mode 6: a gossipsub star whose hub has seven subscribing neighbours with D=2 / Dhi=3 / Dlazy=5 (degree = D+Dlazy): at
+		// least four leaves are outside the hub's mesh and depend on IHAVE / IWANT, all asking the hub for the same message
+		wide := mode == 6
+		if wide {
+			mode, forceBig = 2, true
+		}
 		nn := 2 + rng.Intn(5)
 		if edge {
 			nn = 3 + rng.Intn(3)
@@ -61,6 +67,9 @@ func vfNetHistory(t *testing.T, rng *rand.Rand, mode int, forceBig bool) (lit st
 		bigStar := (smallD && mode == 2 && rng.Intn(3) != 0) || forceBig
 		if bigStar {
 			nn = 5
+		}
+		if wide {
+			nn = 8
 		}
 		hosts := vfHosts(t, nn)
 		nodes := make([]*vfNNode, nn)
@@ -90,6 +99,9 @@ func vfNetHistory(t *testing.T, rng *rand.Rand, mode int, forceBig bool) (lit st
 				if smallD {
 					gp := DefaultGossipSubParams()
 					gp.D, gp.Dlo, gp.Dhi, gp.Dscore, gp.Dout, gp.Dlazy = 2, 1, 3, 1, 0, 2
+					if wide {
+						gp.Dlazy = 5
+					}
 					opts = append(opts, WithGossipSubParams(gp))
 				}
 				ps, err = NewGossipSub(ctx, hosts[i], opts...)
@@ -402,6 +414,12 @@ func TestVF_Net(t *testing.T) {
 		lit, rec, nt := vfNetHistory(t, rng, mode, false)
 		cs.add(lit, rec, nt)
 		cs.kind([]string{"floodsub", "randomsub", "gossipsub", "mixed"}[mode])
+	}
+	// several lazy peers of one node ask it for the same message
+	for c := vfN(6, 60); c > 0; c-- {
+		lit, rec, _ := vfNetHistory(t, rng, 6, false)
+		cs.add(lit, rec, true)
+		cs.kind("gossipsub-wide-star-four-lazy-leaves")
 	}
 	// churn at the degree bound: leaves of a small-parameter gossipsub star reconnect
 	for c := vfN(12, 100); c > 0; c-- {
